@@ -239,6 +239,7 @@ func runStrLitCases(seed uint64, n int, outDir string, extra map[string]interfac
 			}
 			return o
 		}(), "+")
+		src = strings.ReplaceAll(strings.ReplaceAll(src, "\n", "\\n"), "\r", "\\r") // one line per case in cases.src
 		fmt.Fprintf(fin, "jsstrcat\t%s\n", strings.Join(hexes, ","))
 		fmt.Fprintf(fout, "%s\n", hexd(merged))
 		fmt.Fprintf(fsrc, "%s\n", src)
